@@ -1,5 +1,6 @@
 (* C03 — SRC sections display the encoded words, flags and every callout faithfully. *)
 From Coq Require Import List NArith ZArith Bool Arith.
+From PV Require Gen.Layouts Spec.PublishedLayouts.
 From PV Require Import Base.Bytes Base.Lit Base.Json Base.Reader Base.PelTypes Model.Parse Model.Render Spec.Encode Spec.DocOf Gen.Tables
                        Proofs.SrcFacts Proofs.RenderFacts Proofs.SrcRenderFacts Proofs.RegistryFacts.
 Import ListNotations.
@@ -53,6 +54,18 @@ Theorem C03_src_display : forall e c h creator s, structured e -> wf_hdr h -> wf
   render_src e c h [creator] s = Some (doc_src (se_of e) (sp_of e) (allow_plugins c) creator h s).
 Proof. exact render_src_spec. Qed.
 Print Assumptions C03_src_display.
+
+
+(* ---- the tie to the source text ----
+   the SRC section's fixed part and the FRU / PCE identity substructures are read by the source with these primitives, widths,
+   conditions and in this order, and displayed through these expressions (Gen/Layouts.v, extracted on every run by
+   harness/extract_layouts.py, equals the published tables) *)
+Theorem C03_source_layouts :
+  Gen.Layouts.ok_SRC = true /\ Gen.Layouts.rd_SRC = Spec.PublishedLayouts.rd_SRC /\ Gen.Layouts.sh_SRC = Spec.PublishedLayouts.sh_SRC /\
+  Gen.Layouts.ok_FRUIdentity = true /\ Gen.Layouts.rd_FRUIdentity = Spec.PublishedLayouts.rd_FRUIdentity /\
+  Gen.Layouts.ok_PCEIdentity = true /\ Gen.Layouts.rd_PCEIdentity = Spec.PublishedLayouts.rd_PCEIdentity.
+Proof. repeat split; reflexivity. Qed.
+Print Assumptions C03_source_layouts.
 
 (* a registry message, when one is defined for the reason code, is filled with the referenced hex words: the entry is the first
    one of the SRC's type whose reason code contains "0x" + characters 4..7 of the reference code; "SRCWordN" refers to hex word N;
